@@ -62,7 +62,7 @@ func c07Gen(rt *rapid.T) c07Case {
 	var c c07Case
 	c.op = drawOp(rt, []string{"Reshape", "Flatten", "Squeeze", "Unsqueeze", "Shape"})
 	dt := rapid.SampledFrom(ops.AllTypes).Draw(rt, "dtype")
-	shape := genShape(0, 5, 4, 256).Draw(rt, "shape")
+	shape := genShape(0, 5, 4, 1500).Draw(rt, "shape")
 	if c.op == "Squeeze" {
 		// more size-1 axes so there is something to squeeze
 		for i := range shape {
